@@ -152,6 +152,7 @@ fn build(tier: Tier) -> Box<dyn Check> {
     // 9. direct Val-level cells (marker text: handled specially)
     let val_ops: Space<&'static str> = Space::of(vec!["plus", "subtract", "multiply", "divide", "equals", "compare"]);
     fams.push(("val-api".into(), val_ops.product(&pairs, |o, (a, b)| format!("VAL {} {} {}", o, a, b))));
+    fams.push(("thresholds".into(), Space::of(super::scale::programs())));
     Box::new(C03 { fams })
 }
 
@@ -290,7 +291,8 @@ impl Check for C03 {
             val_cell(op, a, b, ctx);
             return;
         }
-        let (j, _) = judge(&text, b"", &JudgeOpts::default(), ctx);
+        let opts = JudgeOpts { limits: crate::refmodel::interp::Limits { steps: 400_000, depth: 150 }, ..Default::default() };
+        let (j, _) = judge(&text, b"", &opts, ctx);
         if let Judged::Agree | Judged::Violation = j {
             ctx.nontrivial();
         }
